@@ -173,7 +173,9 @@ def run(ck):
         xr.seed_all(int(rng.integers(0, 2 ** 31)))
         # tree iterations: every tree is rebuilt n_tree_iters times with projections drawn from the previous build's averaged feature matrix
         tree_iters = int(rng.choice([1, 2])) if method == 'random_global_agop' else 0
-        model = xr.xRFM(rfm_params=xr.default_rfm_params(iters=(1 if tree_iters else 0), reg=1e-2), max_leaf_size=L, number_of_splits=quota,
+        # every 11th fit gives the leaf bound through the deprecated alias min_subset_size
+        model = xr.xRFM(rfm_params=xr.default_rfm_params(iters=(1 if tree_iters else 0), reg=1e-2),
+                        **(dict(min_subset_size=L) if i % 11 == 3 else dict(max_leaf_size=L)), number_of_splits=quota,
                         split_method=method, overlap_fraction=f, verbose=False, use_temperature_tuning=False,
                         n_trees=n_trees, n_tree_iters=tree_iters, refill_size=int(rng.integers(1, 12)), **kw)
         Lm = int(model.max_leaf_size)
